@@ -84,10 +84,41 @@ theorem walk_noShadow_unshadowed (t : Tree) : ∀ (top inh : Bool) (d : Nat),
     · exact ihb _ _ _ f hf
     · exact ihr _ _ _ f hf
 
+/-- the shadow function the generator ends up with: an entry of the same name at a smaller depth, or a
+    left-out top-level field of that name (for promoted entries) -/
+def genShadow (t : Tree) : Shadow :=
+  fun d n => shadowOf (walkTop noShadow t) d n || (decide (0 < d) && (hiddenTop t).contains n)
+
+theorem hideBy_markBy (H : List String) (sh : Shadow) (f : Field) :
+    hideBy H (markBy sh f) = markBy (fun d n => sh d n || (decide (0 < d) && H.contains n)) f := by
+  unfold hideBy markBy
+  by_cases h : 0 < f.depth ∧ H.contains f.name = true
+  · have h' : 0 < ({ f with isShadowed := sh f.depth f.name } : Field).depth ∧
+        H.contains ({ f with isShadowed := sh f.depth f.name } : Field).name = true := h
+    rw [if_pos h']
+    have hm : f.name ∈ H := by simpa using h.2
+    simp [h.1, hm]
+  · have h' : ¬ (0 < ({ f with isShadowed := sh f.depth f.name } : Field).depth ∧
+        H.contains ({ f with isShadowed := sh f.depth f.name } : Field).name = true) := h
+    rw [if_neg h']
+    by_cases h1 : 0 < f.depth
+    · have h2 : H.contains f.name = false := by
+        cases hc : H.contains f.name
+        · rfl
+        · exact absurd ⟨h1, hc⟩ h
+      have hm : f.name ∉ H := by simpa using h2
+      simp [h1, hm]
+    · simp [h1]
+
 /-- the generator's field list is the pre-order walk with the closed-form shadow flags -/
-theorem flatten_closed (t : Tree) :
-    flatten t = walkTop (shadowOf (walkTop noShadow t)) t := by
+theorem flatten_closed (t : Tree) : flatten t = walkTop (genShadow t) t := by
   unfold flatten walkTop
-  rw [foldl_appendCheck _ (walk_noShadow_unshadowed t true false 0), ← walk_map]
+  rw [foldl_appendCheck _ (walk_noShadow_unshadowed t true false 0), List.map_map]
+  rw [walk_map (genShadow t)]
+  apply List.map_congr_left
+  intro f _
+  simp only [Function.comp]
+  rw [hideBy_markBy]
+  rfl
 
 end ShootVerif.Ctor
